@@ -17,7 +17,7 @@
    /verif/fixes/C10-unsorted-indices.patch (values brought into increasing dof order by
    argsort); the behaviour of the unrepaired line is kept as [rls_init_unsorted_bug] for the
    refuted theorem. *)
-From Coq Require Import List Arith Bool ZArith QArith.
+From Coq Require Import List Arith Bool ZArith.
 From Verif.lib Require Import Slice.
 Import ListNotations.
 Local Open Scope nat_scope.
@@ -286,13 +286,61 @@ Definition initial_indices (shape : list nat) (b : bdspec) : option (list nat) :
   end.
 
 (* ------------------------------------------------------------------------- *)
-(* compute_initial_condition_01: the 2x2 collocation solve (assemble.py:533-541) *)
+(* boundary_dofs / boundary_cells / the 'all' shorthand, by name               *)
 (* ------------------------------------------------------------------------- *)
 
-(* np.linalg.solve(bdcolloc, coeffs01), one column: bdcolloc = [[c00, c01], [c10, c11]] holds
-   value (row 0) and first derivative (row 1) of the two boundary basis functions of the time
-   axis at the end point; the result is the solution of the 2x2 system (Cramer's rule; LAPACK
-   computes the same solution by LU) *)
-Definition solve2 (c00 c01 c10 c11 g0 g1 : Q) : Q * Q :=
-  let det := (c00 * c11 - c01 * c10)%Q in
-  (((g0 * c11 - c01 * g1) / det)%Q, ((c00 * g1 - c10 * g0) / det)%Q).
+(* boundary_dofs(kvs, bdspec, ravel=True, flip): shape = numdofs per axis (assemble.py:369-376) *)
+Definition boundary_dofs (numdofs : list nat) (b : bdspec) (flip : list bool) : option (list nat) :=
+  boundary_slice numdofs b flip.
+(* boundary_cells(kvs, bdspec, ravel=True): shape = numspans per axis, no flip (assemble.py:378-385) *)
+Definition boundary_cells (numspans : list nat) (b : bdspec) : option (list nat) :=
+  boundary_slice numspans b [].
+(* compute_dirichlet_bcs(kvs, geo, ('all', g)) (assemble.py:482-490): index part; nc = number of
+   components of g (0 = scalar) *)
+Definition dirichlet_bcs_all_indices (shape : list nat) (nc : nat) : option (list nat) :=
+  dirichlet_bcs_indices shape (map (fun b => (b, nc)) (all_faces (length shape))).
+
+
+(* ------------------------------------------------------------------------- *)
+(* Multipatch.compute_dirichlet_bcs: the loop with its per-patch cache          *)
+(* ------------------------------------------------------------------------- *)
+
+(* Multipatch.compute_dirichlet_bcs (assemble.py:1396-1405), the loop made explicit.
+   A condition is (patch, local indices, values) -- the result of compute_dirichlet_bc on that
+   patch; p2g_of p is self.patch_to_global_idx(p); the dict p2g caches it per patch. *)
+Section MPLoop.
+Variable X : Type.
+Variable d : X.
+Variable p2g_of : nat -> list nat.
+
+Definition mp_cond := (nat * list nat * list X)%type.
+
+Fixpoint cache_get (cache : list (nat * list nat)) (p : nat) : option (list nat) :=
+  match cache with
+  | [] => None
+  | (q, l) :: c => if Nat.eqb p q then Some l else cache_get c p
+  end.
+
+(* one iteration: (bcs, p2g) -> (bcs', p2g') *)
+Definition mp_step (st : list (list nat * list X) * list (nat * list nat)) (c : mp_cond)
+  : list (list nat * list X) * list (nat * list nat) :=
+  let '(bcs, cache) := st in
+  let '(p, loc, vals) := c in
+  let cache' := match cache_get cache p with            (* if p not in p2g: p2g[p] = ... *)
+                | Some _ => cache
+                | None => (p, p2g_of p) :: cache
+                end in
+  let idx := match cache_get cache' p with Some l => l | None => [] end in   (* idx = p2g[p] *)
+  (bcs ++ [(renumber idx loc, vals)], cache').                              (* idx[bc[0]], bc[1] *)
+
+Definition mp_loop (conds : list mp_cond) : list (list nat * list X) :=
+  fst (fold_left mp_step conds ([], [])).
+
+Definition mp_compute_dirichlet_bcs (conds : list mp_cond) : list nat * list X :=
+  combine_bcs X d (mp_loop conds).
+
+End MPLoop.
+
+
+(* The 2x2 collocation solve of compute_initial_condition_01 is modelled in Model_ic.v (it needs
+   the B-spline kernels of lib/Bsp.v). *)
